@@ -67,6 +67,7 @@ func runC04(r *engine.Run) {
 	r.Rule("ORDER-KEY-save", "UpdateChanges writes all new nodes with exactly one MultiPutNode call outside any loop and before any delete; keys[i] is GetHashBytes() of the very node stored in nodes[i], which is a copy of the change's New node; every DeleteNode is reached only with includeDeletes true; SaveChanges hands its own store and includeDeletes arguments through unchanged")
 	r.Rule("WHO-batch", "(*PNodeDB).MultiPutNode reaches RocksDB only through WriteBatch.Put inside the loop over keys (key i with the encoding of node i) and exactly one DB.Write of that batch after the loop; no direct DB.Put/PutCF/Delete")
 	r.Rule("DOM-cancel", "see C05: a re-created node never stays recorded as deleted (it would be dropped from the save or pruned while live)")
+	r.Rule("FRESH-bytes", "see C03: the byte slices handed out by the node accessors (MarshalMsg, Encode, GetHashBytes, GetValueBytes in core/util) are new buffers on every return: nil, make/conversion results, results of calls that produce new buffers, or appends to such; never a field, element, global or map entry. FRESH-node relies on this, and callers of GetNodeValueRaw own (and may overwrite) the slice they get")
 	r.Rule("FRESH-node", "see C03: a pending change whose bytes are overwritten in place is saved under a hash that no longer matches it")
 	r.Rule("WHO-livedelete", "in the trie operations, a node N fetched with key K (N = getNode(K), or N, K returned together by insert/delete/insertNode) that is handed to deleteNode never has K installed as a child reference (NewExtensionNode / insertExtension / PutChild argument, store to NodeKey) on a path through that deleteNode call: a node the rebuilt trie still references is not removed from the store nor recorded dead")
 	r.Rule("DOM-samekey", "in insertNode the change collector is told AddChange(old, new) only when there is no old node or bytes.Equal(old key, new key) tested false: an unchanged re-write does not put a live hash into the dead set")
